@@ -104,9 +104,11 @@ def dump_batch(batch):
 
 def run(spec, R):
     lang = spec['lang']
-    env.install(lang)
+    # the order depccg/__main__.py uses: the printer package is imported first, the language is chosen afterwards
+    env.install()
     env.stub_native_parsing()
     from depccg.printer import to_string
+    env.install(lang)
     rng = shard_rng(ID, spec['seed'], spec['name'])
     for i in range(spec['cases']):
         for fmt in FORMATS[lang]:
